@@ -46,6 +46,15 @@ def find_stage(mir, res, rule):
     w = st.writer
     # the action map: the hash map field of `self` that the writer inserts into
     ins = [c for c in w.calls() if (c.rpath or "").startswith("std::collections::HashMap") and c.rpath.rsplit("::", 1)[-1] == "insert"]
+    # the same insertion spelled with the entry API: `match map.entry(k) { Vacant(v) => v.insert(x), Occupied(o) => .. }`
+    wex = Exprs(w)
+    for c in w.calls():
+        if (c.rpath or "").startswith("std::collections::hash_map::VacantEntry") and c.rpath.rsplit("::", 1)[-1] == "insert" and c.args:
+            e = strip_transparent(wex.operand(c.args[0]))
+            while e.k in ("field", "downcast"):
+                e = strip_transparent(e.a[0])
+            if e.k == "call" and e.site is not None and (e.site.rpath or "").startswith("std::collections::HashMap") and e.site.rpath.rsplit("::", 1)[-1] == "entry":
+                ins.append(EntryInsert(c, e.site))
     if len(ins) != 1:
         res.unanalysable(rule, "writer-insert", w.where, "expected exactly one HashMap::insert in the conflict detector, found %d" % len(ins))
         return None
@@ -81,6 +90,17 @@ def find_stage(mir, res, rule):
     return st
 
 
+class EntryInsert:
+    """`v.insert(x)` on the Vacant entry of `map.entry(key)`: presented like the call `map.insert(key, x)`"""
+
+    def __init__(self, vacant_insert, entry_call):
+        self.call, self.entry = vacant_insert, entry_call
+        self.args = [entry_call.args[0], entry_call.args[1]] + list(vacant_insert.args[1:])
+        self.bb = vacant_insert.bb
+        self.where = vacant_insert.where
+        self.rpath = vacant_insert.rpath
+
+
 def touches_field(pl, owner, name):
     return any(isinstance(e, dict) and "f" in e and e.get("owner") == owner and e.get("name") == name for e in pl["p"])
 
@@ -106,7 +126,7 @@ def check_writer(st, res, rule):
                 res.inst(rule, "map-use|%s|%s" % (fn.path, nm), c.where, True, "mutable borrow=%s" % mutable)
                 if (mutable or nm in MAP_WRITERS) and fn.key != w.key:
                     res.violate(rule, "second-writer|%s|%s" % (fn.path, nm), c.where, "the action map `%s.%s` is written (`%s`) outside the conflict detector %s: an action can be overwritten without a conflict being reported" % (st.map_owner.rsplit("::", 1)[-1], st.map_field, nm, w.path))
-                if fn.key == w.key and mutable and nm not in ("insert",):
+                if fn.key == w.key and mutable and nm not in ("insert",) and not (nm == "entry" and isinstance(st.insert, EntryInsert) and c.bb == st.insert.entry.bb):
                     res.violate(rule, "writer-other-mutation|" + nm, c.where, "the conflict detector mutates the action map through `%s`" % nm)
         # direct assignment to the field (replacing the whole map) outside constructors
         for b in fn.blocks:
@@ -120,7 +140,29 @@ def check_writer(st, res, rule):
     ex = Exprs(w)
     gets = [c for c in w.calls() if (c.rpath or "").startswith("std::collections::HashMap") and c.rpath.rsplit("::", 1)[-1] in ("get", "contains_key", "get_key_value")]
     ok = False
-    if len(gets) == 1:
+    if isinstance(st.insert, EntryInsert) and not gets:
+        # entry form: the insertion happens on the Vacant case of the entry of that very key in that very map
+        en = st.insert.entry
+        gk = ik = canon(ex.operand(en.args[1]))
+        groot, _ = borrow_root(w, en.args[0])
+        same_map = groot is not None and touches_field(groot, st.map_owner, st.map_field)
+        cd = w.control_deps()
+        on_lookup = False
+        for (a, s_) in cd.get(st.insert.bb, ()):
+            t = w.blocks[a]["term"]
+            if t["k"] != "switch":
+                continue
+            de = strip_transparent(ex.operand(t["discr"]))
+            inner = strip_transparent(de.a[0]) if de.k == "discr" and de.a else None
+            if inner is not None and inner.k == "call" and inner.site is not None and inner.site.bb == en.bb:
+                # Entry: Occupied = 0, Vacant = 1
+                vac = [bb for (v, bb) in t["targets"] if v == 1] or ([t["otherwise"]] if any(v == 0 for (v, bb) in t["targets"]) else [])
+                on_lookup = s_ in vac
+        st.get = en
+        res.inst(rule, "insert-after-miss", st.insert.where, True, "entry(%s) of the same map=%s, insert on its Vacant case=%s" % (gk, same_map, on_lookup))
+        ok = same_map and on_lookup
+        st.key_expr = gk
+    elif len(gets) == 1:
         g = gets[0]
         gk = canon(ex.operand(g.args[1]))
         ik = canon(ex.operand(st.insert.args[1]))
@@ -223,6 +265,9 @@ def check_scan(st, res, rule):
                     okl = True
                 if re.match(r"^IntoIterator@\w+::into_iter\(Iterator::enumerate\(slice::iter\((Deref@Oset::deref\()?param1\.machine\.states\)?\)\)\)$", it):
                     okl = True
+                mp = re.match(r"^IntoIterator@\w+::into_iter\((?:slice::iter\()?(?:Deref@Oset::deref\()?param(\d+)\.items\)?\)?\)$", it)
+                if mp and fn.inputs[int(mp.group(1)) - 1]["head"].endswith("::State") and state_param_is_own_state(st, fn, int(mp.group(1))):
+                    okl = True  # the state itself is handed down next to its index, both from one enumerate() element
             # the scan cannot be bypassed: no normal return is reachable from the entry without entering the loop
             work, seen_b = [0], set()
             bypass = None
@@ -241,6 +286,60 @@ def check_scan(st, res, rule):
             if not okl:
                 res.violate(rule, "loop-range|%s" % fn.path, fn.where, "loop in %s does not range over all states (0..states.len()) or over the whole item set of the state: %s" % (fn.path, desc))
     res.floor("loops on the way to the conflict detector", n, 2)
+
+
+ENUM_STATES = r"\(Iterator@Enumerate::next\(IntoIterator@\w+::into_iter\(Iterator::enumerate\(slice::iter\((?:Deref@Oset::deref\()?param1\.(?:\w+\.)?states\)?\)\)\)\) as Some\)\.0"
+
+
+def state_param_is_own_state(st, fn, k):
+    """parameter k of fn (a `&State`) is, at every call of fn on the way to the detector, the state paired with the
+    index handed down in the same call: both come from one element of `states.iter().enumerate()` over all states"""
+    mir = st.mir
+    sp = [i + 1 for i, t in enumerate(fn.inputs) if t["head"].endswith("::StateIndex")]
+    if len(sp) != 1:
+        return False
+    n = 0
+    for ck in st.chain:
+        caller = mir.fns[ck]
+        cex = None
+        for c in caller.calls():
+            if not (c.local and c.rkey == fn.key):
+                continue
+            cex = cex or Exprs(caller)
+            n += 1
+            a_state = canon(cex.operand(c.args[k - 1]))
+            a_index = canon(cex.operand(c.args[sp[0] - 1]))
+            m = re.match(r"^(%s)\.1$" % ENUM_STATES, a_state)
+            if not m or a_index != "StateIndex::StateIndex{%s.0}" % m.group(1):
+                return False
+    return n >= 1
+
+
+def value_projections(st):
+    """how the action map's stored value is taken apart: (projection of the item, projection of the action) — `.0`/`.1`
+    for the tuple `(&StateItem, Action)`, the field names for a small struct holding the same two things"""
+    return value_projections_of(st.mir, st.map_owner, st.map_field)
+
+
+def value_projections_of(mir, map_owner, map_field):
+    owner = mir.adts.get(map_owner) or {}
+    fty = None
+    for v in owner.get("variants", []):
+        for f in v["fields"]:
+            if f["name"] == map_field:
+                fty = f["ty"]
+    if fty is None:
+        return ".0", ".1"
+    for T in fty.get("adts", []):
+        a = mir.adts.get(T)
+        if not a or a.get("kind") != "Struct" or len(a.get("variants", [])) != 1:
+            continue
+        fs = a["variants"][0]["fields"]
+        item = [f["name"] for f in fs if "StateItem" in f["ty"].get("s", "")]
+        act = [f["name"] for f in fs if f["ty"].get("s", "").endswith("table::Action")]
+        if len(fs) == 2 and len(item) == 1 and len(act) == 1:
+            return "." + item[0], "." + act[0]
+    return ".0", ".1"
 
 
 def check_key_types(st, res, rule):
